@@ -214,7 +214,7 @@ func (f *Frame) call(c *ssa.CallCommon, pos token.Pos, v ssa.Value) []Val {
 			return f.inlineCall(fn, args, nil)
 		}
 		vc.noteUncontracted(f.p.fullKey(fn))
-		vc.havocAll(f.cur)
+		f.havocAllExceptLocals()
 		return f.freshResults(c, fn.Name())
 	}
 	if isEffectFree(name) {
@@ -265,7 +265,7 @@ func (f *Frame) havocReachable(args []ssa.Value) {
 			} else {
 				l, ok := f.locOf(x)
 				if !ok {
-					vc.havocAll(f.cur)
+					f.havocAllExceptLocals()
 					return
 				}
 				fr := f.freshVal("hv", l.typ)
@@ -307,6 +307,10 @@ func (f *Frame) havocReachable(args []ssa.Value) {
 }
 
 func isActivationLocal(k string) bool {
+	return isActLocal(k)
+}
+
+func isActLocal(k string) bool {
 	for _, p := range []string{"Held_", "Defer_", "Visited_", "Ghost_", "Own_", "Spawn_", "SpawnArg_", "Base_"} {
 		if strings.HasPrefix(k, p) {
 			return true
@@ -335,10 +339,22 @@ func (f *Frame) havocAllExceptLocals() {
 		keep[k] = f.vc.get(f.cur, k)
 	}
 	oldNext := f.vc.get(f.cur, "next")
+	// immutable fields: objects that exist now keep their value; objects allocated by the unknown code are unknown
+	immOld := map[string]string{}
+	for k := range f.vc.comps {
+		if immutableComps[k] {
+			immOld[k] = f.vc.get(f.cur, k)
+		}
+	}
+	before := f.cur.clone()
 	f.vc.havocAll(f.cur)
 	for k, v := range keep {
 		f.cur.comp[k] = v
 	}
+	for k, old := range immOld {
+		f.havocKeepOld(k, old, oldNext)
+	}
+	f.restorePrivate(before)
 	f.vc.assume(fmt.Sprintf("(>= %s %s)", f.vc.get(f.cur, "next"), oldNext))
 }
 
@@ -1527,6 +1543,9 @@ func (f *Frame) interfere(m *Monitor, st types.Type, base string) {
 		}
 	}
 	for _, c := range f.monitorDeepComps(m, st) {
+		if immutableComps[c] {
+			continue // nobody writes immutable fields of existing objects
+		}
 		vc.havocComp(f.cur, c)
 	}
 	// environment changes are not this function's writes: re-base the frame
@@ -1619,6 +1638,13 @@ func (f *Frame) checkProtectedRead(x *ssa.UnOp, l Loc) {
 func (f *Frame) checkProtectedMapRead(x *ssa.Lookup, h Val) {}
 
 func (f *Frame) siteStore(x *ssa.Store, l Loc) {
+	if l.kind == "field" && (f.safety || f.contract != nil) {
+		if n, _ := fieldComp(l.structT, l.path); immutableComps[n] {
+			// declared immutable: may only be written while the object is still private to its constructor
+			lbl := f.label("immutable", strings.TrimPrefix(n, "H_")+":written-only-on-fresh-object")
+			f.assertObl("immutable", lbl, nil, f.guard, fmt.Sprintf("(>= %s %s)", l.base, f.vc.get(f.rootEntry(), "next")), f.p.posString(x.Pos()))
+		}
+	}
 	if l.kind == "field" && len(l.path) > 0 && (f.safety || f.contract != nil) {
 		fname := l.structT.Underlying().(*types.Struct).Field(l.path[0]).Name()
 		if m, ok := f.protectedBy(l.structT, fname); ok {
@@ -1689,6 +1715,7 @@ func (f *Frame) siteMapUpdate(x *ssa.MapUpdate, h, k, v Val) {
 			}
 		}
 	}
+	f.flagEvent("mapupdate:" + fieldPat)
 	for _, s := range f.rootContract().Sites {
 		if s.Kind != "mapupdate" || s.Pattern != fieldPat {
 			continue
@@ -1709,6 +1736,7 @@ func (f *Frame) siteMapUpdate(x *ssa.MapUpdate, h, k, v Val) {
 
 func (f *Frame) siteCall(c *ssa.CallCommon, pos token.Pos) {
 	rc := f.rootContract()
+	f.flagEvent("call:" + shortCallee(c))
 	if len(rc.Sites) == 0 {
 		return
 	}
